@@ -45,6 +45,34 @@ Theorem C21_rmref_safe : forall g fs n, repo_ok g fs -> crash_safe g fs (op_rmre
 Proof. exact rmref_safe. Qed.
 Print Assumptions C21_rmref_safe.
 
+(* PackRefs: packed-refs written through a temp file, loose files removed afterwards *)
+Theorem C21_packrefs_safe : forall g fs, repo_ok g fs -> crash_safe g fs (op_packrefs fs).
+Proof. exact packrefs_safe. Qed.
+Print Assumptions C21_packrefs_safe.
+
+(* Prune: only objects outside the walker's seen set go — by C22 nothing needed.
+   wf_modes / wf_index: the boolean content well-formedness conditions of C22. *)
+Theorem C21_prune_safe : forall g fs ol lim,
+  wf_modes (to_repo g fs ol []) = true -> wf_index (to_repo g fs ol []) = true ->
+  repo_ok g fs -> crash_safe g fs (op_prune g fs ol lim).
+Proof. exact prune_safe. Qed.
+Print Assumptions C21_prune_safe.
+
+(* RepackObjects (repaired order): new pack in place, then the loose copies, then the old packs
+   (each pack before its idx) *)
+Theorem C21_repack_safe : forall g fs op lim,
+  wf_modes (to_repo g fs [] op) = true -> wf_index (to_repo g fs [] op) = true ->
+  pack_fresh fs (new_pack_name fs) = true ->
+  repo_ok g fs -> crash_safe g fs (op_repack g fs op lim).
+Proof. exact repack_safe. Qed.
+Print Assumptions C21_repack_safe.
+
+(* operations compose: the crash states of a sequence are those of its parts *)
+Theorem C21_sequence : forall g fs a b,
+  crash_safe g fs a -> crash_safe g (run a fs) b -> crash_safe g fs (a ++ b).
+Proof. intros g fs a b Ha Hb. unfold crash_safe. rewrite crash_states_app. apply Forall_app. now split. Qed.
+Print Assumptions C21_sequence.
+
 (* ---- in-place rewrites: refuted; the only bad states are those in which the
         rewritten file is incomplete ---- *)
 
